@@ -49,6 +49,11 @@ def extra_worlds():
         {"all.do": [S(deps=["t1", "t2"])], "t1.do": [S(deps=["c"], tolerant=True)], "t2.do": [S(deps=["c"], tolerant=True, out="file")],
          "c.do": [S(kind="csum", deps=["s"], fail="flag", proj=True, out="file")]},
         ["all", "t1", "t2", "c"], ["all"])
+    w["tolerant-target-shared"] = World(   # the script that goes on without its failing dependency is itself asked for by two jobs
+        "tolerant-target-shared", {"s": ["0", "1"], "flag": ["1", "0"]},
+        {"all.do": [S(deps=["t1", "t2"])], "t1.do": [S(deps=["a"])], "t2.do": [S(deps=["a"], out="file")],
+         "a.do": [S(deps=["c"], tolerant=True)], "c.do": [S(deps=["s"], fail="flag", out="file")]},
+        ["all", "t1", "t2", "a", "c"], ["all"])
     w["link-spellings"] = World(   # two jobs ask for one file, one of them through a symbolic link to its directory
         "link-spellings", {"s": ["0", "1"], "d/k": ["0"]},
         {"all.do": [S(deps=["a", "b"])], "a.do": [S(deps=["d/y"])], "b.do": [S(deps=["ld/y"], out="file")], "d/y.do": [S(deps=["../s"])]},
@@ -89,6 +94,8 @@ def scenarios(tier):
     # two jobs go on without a shared dependency whose build fails; the repaired dependency must reach both afterwards
     # (the follow-up rebuild after editing every source -- flag included -- is compared with the serial run's)
     L.append((SC.scn("tolerated-failure-of-shared-j2", w["tolerant-shared"], ["redo --no-log -j2 all"], visible=VIS), 1 if q else 2))
+    L.append((SC.scn("tolerating-target-asked-for-twice-j2", w["tolerant-target-shared"], ["redo --no-log -j2 all"], visible=VIS), 1 if q else 2))
+    L.append((SC.scn("tolerating-target-asked-for-twice-j1", w["tolerant-target-shared"], ["redo --no-log all"], visible=VIS), 0 if q else 1))
     L.append((SC.scn("two-spellings-through-dir-symlink-j2", w["link-spellings"], ["redo --no-log -j2 all"], visible=VIS), 1 if q else 2))
     # every order of the command line (what --shuffle can produce) for two targets sharing a chain
     for perm in list(itertools.permutations(["t1", "t2"]))[:1 if q else 2]:      # quick: one order
